@@ -50,7 +50,7 @@ worktree's git log): regressions NEXT TO a repaired defect - the same root cause
 later simplification of the repaired code, the same slip in a sister function the fix did not touch - or, where no fix
 touches the property's code, another maintenance commit; round 9 repeated round 8's brief with the seventeen earlier
 changes listed, as a control sample, and so did round 10 with nineteen (three agents delivered only one change or none
-within their budget: 34 changes). Each change compiles, passes the repository's own
+within their budget: 35 changes). Each change compiles, passes the repository's own
 test-suite and comes with a demonstration test that fails with the change and passes without it; all of that was
 re-confirmed with `tools/eval_mut.sh` (C19-r2-2 by hand under `-race`) before the change was kept under
 `seeded/<property>-<k>/`, `seeded/<property>-r<round>-<k>/` (`patch.diff`, `demo_test.go.txt`,
@@ -86,7 +86,7 @@ that make IsPlanar allocate without bound, which first ended as INCONCLUSIVE ins
 28 of 40 on arrival; two are reported by the thorough tier only (C03-r9-1 needs a search on 11 vertices, C11-r9-1 about
 one targeted graph in 200000), two belong to another property's check (C03-r9-2, C13-r9-1), the other seven led to the
 next strengthenings (independent decoded graphs, aliased arguments, writers with WriteString, wide final nodes, ...).
-Round 10: 25 of 34 on arrival; two belong to another property's check (C09-r10-2 to C06, C19-r10-1 to C13), seven led to
+Round 10: 26 of 35 on arrival; two belong to another property's check (C09-r10-2 to C06, C19-r10-1 to C13), seven led to
 the last strengthenings (results of encoders and decoders owned by the caller, Roots, near-intervals, a big shared graph
 under the race detector, hundreds of large TSP tables with mixed-width weights, FlowerSnark(1)).
 
